@@ -66,6 +66,14 @@ class Boom(Exception):
     pass
 
 
+class FalsyTok(tuple):
+    """results whose truth value is False (None-like) are results like any other: a cache
+    that tests `if value` / uses a falsy sentinel would recompute or lose them"""
+
+    def __bool__(self) -> bool:
+        return False
+
+
 # ---------------------------------------------------------------------------------------
 # S1: sequential differential
 # ---------------------------------------------------------------------------------------
@@ -139,7 +147,7 @@ def execute_s1(case: dict) -> dict:
                    always_checkpoint=case["always_checkpoint"])  # fmt: skip
         async def fn(arg):  # noqa: ANN001, ANN202
             execs.append(arg)
-            return ("tok", repr(arg), len(execs))
+            return FalsyTok(("tok", repr(arg), len(execs)))
 
         ref = RefLRU(case["maxsize"], case["typed"], case["ttl"])
         stdlib = None
@@ -370,7 +378,7 @@ def execute_conc(case: dict) -> dict:
 
                 rec["status"] = "ok"
                 rec["end_time"] = anyio.current_time()
-                return (k, n)
+                return FalsyTok((k, n)) if k % 2 else (k, n)
             except asyncio.CancelledError:
                 rec["status"] = "cancelled"
                 raise
